@@ -32,6 +32,13 @@
 //              tiny flavour: keys 704, 448 (quick) + 672, 704', 1024 (thorough); default counts: 448 (quick: S-1 vectors,
 //              first/last element per stage, short catalogue) + 704 and 2048 (thorough).
 //
+//   forge      the key owner alters the PRab encoding: for every pool key + 1024 bit (thorough: + 2048) and message lengths
+//              0, 16, 130 (thorough: + 1, 53, 4096): e = s^2 mod m of a genuine signature = w(32) | salt(20) | gamma; EVERY octet
+//              x {xor 1, xor 0x80}, the same octet advanced until the value is a quadratic residue (secret primes), all four
+//              roots turned into signature texts: verify() for the same data must refuse each (a changed w or salt changes
+//              the hash input, a changed gamma octet differs from g(w)).  The four roots of the unaltered e: root and
+//              negation must be accepted, the other pair is recorded.
+//
 // Oracle (exact up to SHA-256/SHA3 coincidences, for every VERIF_SEED)
 //   * untampered: verify = true, decrypt = true and returns the plaintext, check() = true.
 //   * tsig/tenc/tkey: the harness re-parses the altered text with its own splitter and decides with plain GMP whether it
@@ -1400,6 +1407,146 @@ static void fam_nizk()
 	}
 }
 
+// ---------------------------------------------------------------------------------------------- forge (key owner alters the padded encoding)
+// The PRab encoding of a signature is the mnsize-octet big-endian number  w (32) || r* (20) || gamma (mnsize-52)  = s^2 mod m.
+// Random text mutations of the root never produce an encoding that differs from a genuine one in a single octet; the owner
+// of the primes can: alter one octet, adjust the same octet until the value is a quadratic residue, take the four roots.
+static const char *forge_region(size_t pos, size_t mnsize)
+{
+	size_t mdsize = gcry_md_get_algo_dlen(TMCG_GCRY_MD_ALGO);
+	if (pos < mdsize) return "w";
+	if (pos < mdsize + TMCG_PRAB_K0) return "salt";
+	if (pos == mnsize - 1) return "gamma-last";
+	if (pos < 2 * mdsize + TMCG_PRAB_K0) return "gamma-head";
+	return "gamma-tail";
+}
+
+static void fam_forge()
+{
+	std::vector<KeySpec> specs = pool_specs(false);
+	specs.push_back(KeySpec{1024, false, 0});
+	if (thorough)
+	{
+		specs.push_back(KeySpec{1024, true, 0});
+		specs.push_back(KeySpec{2048, false, 0});
+	}
+	size_t lens[] = { 0, 16, 130, 1, 53, 4096 };
+	for (size_t ki = 0; ki < specs.size(); ki++)
+		for (size_t li = 0; li < (thorough ? 6u : 3u); li++)
+		{
+			std::string cell = "forge/" + spec_id(specs[ki]) + "/len" + str(lens[li]);
+			if (!R->mine()) continue;
+			if (R->out_of_time()) return;
+			if (!R->selected(cell)) continue;
+			Key &K = get_key(specs[ki]);
+			mpz_srcptr m = K.sk->m;
+			size_t mnsize = mpz_sizeinbase(m, 2) / 8;
+			std::string data = message(lens[li], ki + 40), sig;
+			{
+				Coins c(SEED * 271 + ki * 37 + li, 60);
+				sig = K.sk->sign(data);
+			}
+			std::vector<std::string> sp = split(sig, '|');
+			Z s, e, t, u, unit;
+			if (sp.size() != 4 || !parsez(s.v, sp[2]))
+			{
+				R->viol("rabin/signature-format", "signature text does not have 3 fields: " + shortened(sig), cell);
+				continue;
+			}
+			mpz_mul(e.v, s.v, s.v), mpz_mod(e.v, e.v, m);
+			// non-trivial square root of 1: 1 mod p, -1 mod q
+			mpz_sub(unit.v, K.sk->gcdext_vq, K.sk->gcdext_up), mpz_mod(unit.v, unit.v, m);
+			auto four_roots = [&](mpz_srcptr root, Z out[4]) {
+				mpz_mod(out[0].v, root, m);
+				mpz_sub(out[1].v, m, out[0].v);
+				mpz_mul(out[2].v, out[0].v, unit.v), mpz_mod(out[2].v, out[2].v, m);
+				mpz_sub(out[3].v, m, out[2].v);
+			};
+			auto sigtext = [&](mpz_srcptr root) { return sp[0] + "|" + sp[1] + "|" + zt(root) + "|"; };
+			// converse sanity: the four roots of the unaltered encoding
+			{
+				Z rt[4];
+				four_roots(s.v, rt);
+				for (int k = 0; k < 4; k++)
+				{
+					bool acc = K.pk->verify(data, sigtext(rt[k].v));
+					R->ok(k != 0);
+					if (k < 2 && !acc)
+						R->viol("rabin/sig/equivalent-refused/root", std::string(k ? "negated root" : "genuine root") + " of the unaltered encoding refused, key " + spec_id(specs[ki]), cell);
+					else if (k < 2)
+						tally.mustaccept++;
+					else
+					{
+						(acc ? tally.equiv_accepted : tally.equiv_refused)++;
+						tally.equiv_names[std::string("root:other-root-pair(forge)") + (acc ? ":accepted" : ":refused")]++;
+					}
+				}
+			}
+			std::vector<unsigned char> enc(mnsize, 0), alt;
+			{
+				// big-endian, left padded to mnsize octets
+				size_t cnt = 0;
+				std::vector<unsigned char> tmp(mnsize + 8, 0);
+				mpz_export(tmp.data(), &cnt, 1, 1, 1, 0, e.v);
+				if (cnt > mnsize)
+				{
+					harness_error("square of a genuine signature does not fit the encoding size", cell);
+					continue;
+				}
+				memcpy(enc.data() + (mnsize - cnt), tmp.data(), cnt);
+			}
+			for (size_t pos = 0; pos < mnsize; pos++)
+				for (int fl = 0; fl < 2; fl++)
+				{
+					const char *region = forge_region(pos, mnsize);
+					unsigned char start = (unsigned char)(enc[pos] ^ (fl ? 0x80 : 0x01));
+					bool found = false;
+					unsigned char val = 0;
+					Z ev;
+					for (unsigned k = 0; k < 256 && !found; k++)
+					{
+						val = (unsigned char)(start + k);
+						if (val == enc[pos])
+							continue;
+						alt = enc;
+						alt[pos] = val;
+						mpz_import(ev.v, mnsize, 1, 1, 1, 0, alt.data());
+						if (mpz_sgn(ev.v) && tmcg_mpz_qrmn_p(ev.v, K.sk->p, K.sk->q))
+							found = true;
+					}
+					if (!found)
+					{
+						R->counters[std::string("forge_no_residue_in_octet/") + region]++;
+						continue;
+					}
+					Z root, rt[4];
+					tmcg_mpz_sqrtmn_r(root.v, ev.v, K.sk->p, K.sk->q, m);
+					four_roots(root.v, rt);
+					for (int k = 0; k < 4; k++)
+					{
+						mpz_mul(t.v, rt[k].v, rt[k].v), mpz_mod(t.v, t.v, m);
+						if (mpz_cmp(t.v, ev.v))
+						{
+							harness_error("harness square root does not square back", cell);
+							continue;
+						}
+						// the genuine signature is verified right before (a verifier must not depend on its history)
+						if (!K.pk->verify(data, sig))
+							R->viol("rabin/valid-signature-refused", "genuine signature refused: " + shortened(sig, 60), cell);
+						std::string forged = sigtext(rt[k].v);
+						bool acc = K.pk->verify(data, forged);
+						R->ok(true);
+						if (acc)
+							R->viol(std::string("rabin/forge/accepted-altered-encoding/") + region, "encoding of a genuine signature altered in octet " + str(pos) + " of " + str(mnsize) + " (region " + region + ", " + str((unsigned)enc[pos]) + " -> " + str((unsigned)val) + "), root " + str(k) + " taken with the secret primes: verify() = true for the same data, key " + spec_id(specs[ki]) + " sig=" + shortened(forged, 70), cell);
+						else
+							R->counters[std::string("forge_refused/") + region]++;
+					}
+				}
+			if (li == 1)
+				R->sample(cell, "encoding " + str(mnsize) + " octets (w 32 | salt 20 | gamma " + str(mnsize - 52) + "), every octet x {^1, ^0x80 -> next residue in the same octet} x 4 roots; sig=" + shortened(sig, 60));
+		}
+}
+
 int main(int argc, char **argv)
 {
 	Args A = parse(argc, argv);
@@ -1416,6 +1563,7 @@ int main(int argc, char **argv)
 	else if (family == "tenc") fam_tenc();
 	else if (family == "tkey") fam_tkey();
 	else if (family == "nizk") fam_nizk();
+	else if (family == "forge") fam_forge();
 	else { fprintf(stderr, "unknown family %s\n", family.c_str()); return 2; }
 	rep.counters["refused_as_required"] = tally.refused;
 	rep.counters["accepted_as_required"] = tally.mustaccept;
